@@ -3,6 +3,46 @@
 import json, glob, os, re
 HERE = os.path.dirname(os.path.dirname(os.path.abspath(__file__)))
 STRENGTHENED = {
+ "C01-w5m3": "reported by C13 as built (one-shot iterator forms: every item must arrive exactly once)",
+ "C02-w5m2": "reported by C10, whose live-object oracle now asks children(featuretype=...) with a type that only the update introduced",
+ "C03-w5m3": "reported by C13 as built (one-shot non-generator iterables of Feature objects)",
+ "C04-w5m2": "C04 now also looks up Feature objects that came from ANOTHER database (same id, different row position)",
+ "C04-w5m3": "C04 gained the custom gtf_gene_key / gtf_transcript_key options with id_spec=None (distinct attribute names for the two keys)",
+ "C05-w5m2": "reported by C10: its alphabet gained a delete of a feature that has recorded duplicates (I:dups), duplicates table compared with the model",
+ "C05-w5m3": "C05 gained replace-merges where the incoming feature has no Parent while the replaced one had",
+ "C06-w5m2": "reported by C10, whose live-object oracle now asks region() on a seqid that only the update introduced",
+ "C07-w5m3": "reported by C08 as built (escaped comma inside a value, dialect supplied)",
+ "C08-w5m2": "reported by C07 as built (two or more extra columns)",
+ "C08-w5m3": "C08 alphabet gained a C1 control character (U+0085) next to U+2028",
+ "C09-w5m1": "C09 gained files whose inspected lines include one with an empty attributes column between lines with attributes",
+ "C09-w5m2": "C09 gained force_gff=True on GTF-written input, with inferred and with supplied dialect (the supplied dict must stay untouched)",
+ "C10-w5m1": "C10's delete events gained the argument forms generator / one-shot iterator of ids next to list and single id",
+ "C10-w5m3": "C10 gained add_relation events naming ids that do not exist (must raise and leave the relations untouched)",
+ "C11-w5m2": "reported by C10 as built (add_relation with a child_func: the rewritten feature keeps its position)",
+ "C12-w5m1": "C12 gained empty and one-base intervals at 0 and at every bin boundary",
+ "C12-w5m2": "C12 now mutates every returned set and asks again (a returned set must not be shared state)",
+ "C12-w5m3": "reported by C06 as built (features stored in a coarser bin than the query region's own)",
+ "C13-w5m1": "reported by C14, which gained the CRLF + gzip form with blank lines and directives",
+ "C13-w5m2": "C13's Feature-object forms now use features carrying their own, different dialect; the iterated print-outs are compared with the path form",
+ "C13-w5m3": "C13 wraps the supplied iterable in a counting iterator: inspect(limit=n) may not consume more than it reports",
+ "C14-w5m1": "reported by C10: its initial database now carries directives and every state compares db.directives with the model",
+ "C14-w5m2": "C14 gained GTF-written annotations with directives (database side)",
+ "C14-w5m3": "C14 builds two from_string iterators with different texts before consuming the first (both must keep their own text and directives)",
+ "C15-w5m1": "C15 recomputes introns / splice sites on the same live object after an update that adds a transcript",
+ "C15-w5m2": "C15 gained the empty and the one-feature input to interfeatures",
+ "C15-w5m3": "C15 gained neighbours with identical attributes and checks that no input feature was modified or shares its attribute dict with an output",
+ "C16-w5m1": "C16 now also calls children_bp / merge with the documented positional argument order",
+ "C16-w5m2": "C16's criteria alphabet gained callbacks that refuse with falsy non-False values (0, None, '')",
+ "C16-w5m3": "C16 gained merge_criteria=[] and () (vacuously accepting: one run per seqid/strand group)",
+ "C17-w5m2": "C17's value forms gained tuples (and 1-tuples) next to lists and scalars",
+ "C17-w5m3": "C17 checks that merge_attributes leaves both arguments (including bare-string values) untouched",
+ "C18-w5m1": "C18's bed12 gained list-valued block/thick featuretype arguments",
+ "C18-w5m2": "C18 now also calls sequence(fasta, use_strand) positionally",
+ "C19-w5m1": "C19 gained 'pending failed write, then read calls': reads may neither issue write statements nor commit",
+ "C19-w5m2": "C19 gained invalid create_db calls (bad merge_strategy / bad id_spec callable) against an existing database file with force=False",
+ "C19-w5m3": "C19's forced re-import now uses an existing database that is NEWER than the annotation and holds different content and directives",
+ "C20-w5m1": "C20 gained jobs that fail (duplicate ids with merge_strategy='error') and jobs without relation inference; leftovers are checked after every job kind",
+ "C20-w5m2": "E3 gained torn first writes; C20 gained the pair that imports the identical text as a string (pre-emption bound 2 quick / 3 thorough)",
  "C14-w4m1": "C14 gained the 'gzip path with CRLF line ends' input form (C13 gained CRLF forms too)",
  "C14-w4m2": "C14 alphabet gained the '#!pragma' comment line",
  "C12-w4m1": "reported by C06 (query side of the bin index)",
